@@ -501,6 +501,11 @@ where
             .choose_down_members(num_members, &mut self.choice_buf, &mut self.rng);
 
         while let Some(chosen) = self.choice_buf.pop() {
+            // Previous identities of this very instance are kept as Down
+            // members too: announcing to them means talking to ourselves
+            if chosen.id().addr() == self.identity.addr() {
+                continue;
+            }
             self.send_message(chosen.into_identity(), Message::Announce, &mut runtime)?;
         }
 
